@@ -13,5 +13,10 @@ try:
     lines = [l[:300] for l in r.stdout.splitlines() if l.startswith(("VIOLATION", "  sig", "KNOWN", pid, "MACHINERY"))]
     print("%s vs %s (%s): exit %d" % (os.path.basename(d), pid, tier, r.returncode))
     print("\n".join(lines[:14]))
+    import json, re
+    clauses = sorted(set(re.findall(r'"clause": "([^"]+)"', r.stdout)))
+    json.dump({"check": pid, "tier": tier, "exit": r.returncode, "clauses": clauses,
+               "violation_lines": sum(1 for l in r.stdout.splitlines() if l.startswith("VIOLATION"))},
+              open(os.path.join(d, "detect_%s_%s.json" % (pid, tier)), "w"), indent=1)
 finally:
     run("git -C /repo worktree remove --force %s" % wt); shutil.rmtree(wt, ignore_errors=True); shutil.rmtree(ev, ignore_errors=True)
